@@ -58,6 +58,8 @@ func runC01(p *core.Program, r *core.Report) {
 	chainRules(p, r, "R11", "C13", []string{"C13.R9"}, "the loaded module record is not edited")
 	// round 8: whether rendered text reaches the file also rests on the snippets answering IsNil for nothing but emptiness
 	chainRules(p, r, "R12", "C09", []string{"C09.R7"}, "a snippet is skipped only when it holds nothing (a blank Block is text)")
+	// round 9: two generators never share a file - the name of the file is the generator's name as it is (C07.R1)
+	chainRules(p, r, "R13", "C07", []string{"C07.R1"}, "the output file is named <base>.<generator name>.go, the name as it is")
 	c01R9(p, r, w, parse[0], fileV)
 	c01R10(p, r, w)
 }
